@@ -20,7 +20,7 @@ def gen_case(seed: int, idx: int, zones=True, p=0.4):
     rng = random.Random(f"{seed}:{idx}")
     d = G.gen_doc(rng, zones=zones)
     ctext, crec = G.render(d, G.Spelling(rng, canonical=True))
-    ltext, lrec = G.render(d, G.Spelling(rng, p=p))
+    ltext, lrec = G.render(d, G.Spelling(rng, p=p, envelope=True))
     return d, ctext, crec, ltext, lrec
 
 
